@@ -8,11 +8,6 @@ Import ListNotations.
 Open Scope Z_scope.
 
 (* ---- ascending sequences ---- *)
-Fixpoint asc_zs (l : list Z) : bool :=
-  match l with
-  | x :: ((y :: _) as r) => (x <? y) && asc_zs r
-  | _ => true
-  end.
 Lemma asc_seq_zs : forall l, asc_seq l = asc_zs (map f_seq l).
 Proof.
   induction l as [| x l IH]; auto. destruct l as [| y l']; auto.
@@ -219,13 +214,106 @@ Proof.
   destruct (compact_group_layout g l H1 A O) as [A' O']. apply IH; auto.
 Qed.
 
-(* ---- every op but the out-of-order merge preserves the layout predicate ---- *)
-Definition is_merge_ooo (o : op) : bool := match o with MergeOOO _ _ => true | _ => false end.
-
-Lemma step_layout_ok : forall L o, layout_ok L = true -> op_ok L o = true -> is_merge_ooo o = false ->
-  layout_ok (step false L o) = true.
+(* ---- out-of-order merge: rows placed by the bounds, files written under ascending sequences ---- *)
+Lemma target_ge : forall s t bounds fb, asc_zs (fb :: map fst bounds) = true -> fb <= target s t bounds fb.
 Proof.
-  intros L o LO OK NM. destruct o as [b | a so su | | a so su | grps | g b | g n | n a so su]; cbn [step]; try discriminate.
+  induction bounds as [| [seq b] r IH]; intros fb A; cbn [target]; [lia |].
+  cbn [map fst] in A. apply asc_zs_ss in A. inversion A as [| ? ? S F]; subst. inversion F as [| ? ? Lt F']; subst.
+  assert (A1 : asc_zs (seq :: map fst r) = true) by (apply asc_zs_ss; exact S).
+  assert (A2 : asc_zs (fb :: map fst r) = true).
+  { apply asc_zs_ss. inversion S; subst. constructor; auto. }
+  destruct (bound_of s b) as [m |].
+  - destruct (t <=? m); [lia |]. specialize (IH seq A1). lia.
+  - apply IH; auto.
+Qed.
+
+Lemma target_mono : forall s t t' bounds fb, asc_zs (map fst bounds) = true -> t <= t' ->
+  target s t bounds fb <= target s t' bounds fb.
+Proof.
+  induction bounds as [| [seq b] r IH]; intros fb A Le; cbn [target]; [lia |].
+  cbn [map fst] in A.
+  assert (A1 : asc_zs (map fst r) = true).
+  { apply asc_zs_ss in A. inversion A; subst. apply asc_zs_ss; auto. }
+  destruct (bound_of s b) as [m |].
+  - destruct (t <=? m) eqn:Q1; destruct (t' <=? m) eqn:Q2; try lia.
+    + apply (target_ge s t' r seq A).
+    + apply IH; auto.
+  - apply IH; auto.
+Qed.
+
+Definition placed (T : table) (tg : key -> Z) (f : file) : Prop := f_tab f = kfilter (fun k => tg k =? f_seq f) T.
+
+Lemma before_ok_placed : forall T tg x y, placed T tg x -> placed T tg y -> f_seq x < f_seq y ->
+  (forall s t t', t <= t' -> tg (s, t) <= tg (s, t')) -> before_ok x y = true.
+Proof.
+  intros T tg x y Px Py Lt Mono. apply before_ok_intro. intros s a b E1 E2.
+  destruct (max_attained _ _ _ E1) as [fa Ia]. destruct (min_attained _ _ _ E2) as [fb Ib].
+  rewrite Px in Ia. rewrite Py in Ib. unfold kfilter in Ia, Ib. apply filter_In in Ia. apply filter_In in Ib.
+  destruct Ia as [_ Ta]. destruct Ib as [_ Tb]. cbn [fst] in Ta, Tb.
+  destruct (Z_lt_le_dec a b) as [? | Le]; auto. specialize (Mono s b a Le). lia.
+Qed.
+
+Section PlacedFold.
+  Variable T : table.
+  Variable tg : key -> Z.
+  Hypothesis Mono : forall s t t', t <= t' -> tg (s, t) <= tg (s, t').
+
+  Lemma placed_fold_layout : forall bounds acc,
+    asc_zs (map fst bounds) = true ->
+    asc_seq acc = true -> ord_ok_from acc = true -> Forall (placed T tg) acc ->
+    (forall f sq, In f acc -> In sq (map fst bounds) -> f_seq f < sq) ->
+    asc_seq (fold_left (placef T tg) bounds acc) = true /\ ord_ok_from (fold_left (placef T tg) bounds acc) = true.
+  Proof.
+    induction bounds as [| [seq b] r IH]; intros acc A As Ao Pl Lt; cbn [fold_left]; auto.
+    cbn [map fst] in A. apply asc_zs_ss in A. inversion A as [| ? ? S F]; subst.
+    assert (A1 : asc_zs (map fst r) = true) by (apply asc_zs_ss; auto).
+    change (placef T tg acc (seq, b)) with (add_file seq (kfilter (fun k : key => tg k =? seq) T) acc). unfold add_file.
+    destruct (kfilter (fun k : key => tg k =? seq) T) as [| r0 rs] eqn:E.
+    - apply IH; auto. intros f sq If Is. apply Lt; auto. right; auto.
+    - set (nf := {| f_seq := seq; f_tab := r0 :: rs |}).
+      assert (Fr : fresh_seq (f_seq nf) acc = true).
+      { unfold fresh_seq. apply forallb_forall. intros f If. specialize (Lt f seq If (or_introl eq_refl)). cbn. lia. }
+      rewrite insert_file_fresh by exact Fr.
+      assert (Pn : placed T tg nf) by (unfold placed; cbn [f_tab f_seq nf]; auto).
+      apply IH; auto.
+      + apply asc_snoc_fresh; auto.
+      + apply ord_ok_app. repeat split; auto. intros x y Ix [<- | []].
+        rewrite Forall_forall in Pl. apply (before_ok_placed T tg); auto.
+        specialize (Lt x seq Ix (or_introl eq_refl)). cbn. lia.
+      + apply Forall_app. split; auto.
+      + intros f sq If Is. apply in_app_or in If. destruct If as [If | [<- | []]].
+        * apply Lt; auto. right; auto.
+        * cbn [f_seq nf]. rewrite Forall_forall in F. apply F; auto.
+  Qed.
+End PlacedFold.
+
+Lemma merge_ooo_layout_ok : forall L g b, layout_ok L = true -> is_prefix g (ooo L) = true ->
+  asc_zs (map fst b) = true -> layout_ok (merge_ooo g b L) = true.
+Proof.
+  intros L g b LO P A. unfold layout_ok in *. apply andb_true_iff in LO. destruct LO as [LO O3].
+  apply andb_true_iff in LO. destruct LO as [O1 O2]. unfold merge_ooo.
+  destruct (prefix_split g (ooo L) P) as (run & post & E & Ar & Np).
+  assert (N : filter (fun f => negb (in_grp g f)) (ooo L) = post).
+  { rewrite E, filter_app, (filter_neg_allmem g run), (filter_neg_nomem g post); auto. }
+  destruct (filter (in_grp g) (ooo L)) as [| m0 ms] eqn:M.
+  - rewrite O1, O2, O3. reflexivity.
+  - cbn [ooo ord]. rewrite N.
+    set (all := over (ooo_prod (m0 :: ms)) (ord_prod (ord L))).
+    set (tg := fun k : key => target (fst k) (snd k) b (last_seq b)).
+    change (fold_left (fun l sb => add_file (fst sb)
+              (filter (fun r : row => target (fst (fst r)) (snd (fst r)) b (last_seq b) =? fst sb) all) l) b [])
+      with (fold_left (placef all tg) b []).
+    destruct (placed_fold_layout all tg) with (bounds := b) (acc := @nil file) as [X1 X2]; auto.
+    + intros s t t' Le. unfold tg. cbn [fst snd]. apply target_mono; auto.
+    + intros f sq [].
+    + rewrite X1, X2, !andb_true_r. rewrite E in O1. rewrite asc_seq_zs in *. rewrite map_app in O1.
+      apply asc_zs_ss. apply asc_zs_ss in O1. apply ss_app in O1. tauto.
+Qed.
+
+(* ---- every op preserves the layout predicate ---- *)
+Lemma step_layout_ok : forall L o, layout_ok L = true -> op_ok L o = true -> layout_ok (step false L o) = true.
+Proof.
+  intros L o LO OK. destruct o as [b | a so su | | a so su | grps | g b | g n | n a so su]; cbn [step].
   - exact LO.
   - cbn [op_ok] in OK. apply andb_true_iff in OK. destruct OK as [OK _]. apply andb_true_iff in OK. destruct OK as [Fo Fu].
     unfold flush. apply end_flush_layout_ok; auto.
@@ -234,6 +322,8 @@ Proof.
   - cbn [op_ok] in OK. unfold layout_ok in *. apply andb_true_iff in LO. destruct LO as [LO O3].
     apply andb_true_iff in LO. destruct LO as [O1 O2]. cbn [compact ooo ord].
     destruct (compact_groups_layout grps (ord L) OK O2 O3) as [A O]. rewrite O1, A, O. reflexivity.
+  - cbn [op_ok] in OK. apply andb_true_iff in OK. destruct OK as [OK A]. apply andb_true_iff in OK. destruct OK as [P _].
+    apply merge_ooo_layout_ok; auto.
   - cbn [op_ok] in OK. apply andb_true_iff in OK. destruct OK as [Ad BN].
     unfold layout_ok in *. apply andb_true_iff in LO. destruct LO as [LO O3]. apply andb_true_iff in LO. destruct LO as [O1 O2].
     unfold merge_self, merge_self_m. cbn [Z.eqb]. destruct (filter (in_grp g) (ooo L)) as [| m0 ms] eqn:E.
@@ -244,26 +334,29 @@ Proof.
     unfold reopen, flush. apply end_flush_layout_ok; auto.
 Qed.
 
-(* the planner predicate alone: op_ok + write_ok for every op; the layout predicate only after an out-of-order merge
-   (its placement bounds are parameters the model takes from the store) *)
+(* the planner / store predicate alone: op_ok + write_ok for every op - no assumption about the layout *)
 Fixpoint planned_from (L : layout) (h : list op) : bool :=
   match h with
   | [] => true
-  | o :: r => op_ok L o && write_ok o && (negb (is_merge_ooo o) || layout_ok (step false L o)) && planned_from (step false L o) r
+  | o :: r => op_ok L o && write_ok o && planned_from (step false L o) r
   end.
 Definition ops_planned (h : list op) : bool := planned_from init h.
 
 Lemma planned_allowed_from : forall h L, layout_ok L = true -> planned_from L h = true -> allowed_from L h = true.
 Proof.
   induction h as [| o h IH]; intros L LO H; auto. cbn [planned_from allowed_from] in *.
-  apply andb_true_iff in H. destruct H as [H H4]. apply andb_true_iff in H. destruct H as [H H3].
-  apply andb_true_iff in H. destruct H as [H1 H2].
-  assert (LO' : layout_ok (step false L o) = true).
-  { destruct (is_merge_ooo o) eqn:Q; [cbn in H3; exact H3 | apply step_layout_ok; auto]. }
+  apply andb_true_iff in H. destruct H as [H H3]. apply andb_true_iff in H. destruct H as [H1 H2].
+  assert (LO' : layout_ok (step false L o) = true) by (apply step_layout_ok; auto).
   rewrite H1, H2, LO'. cbn [andb]. apply IH; auto.
 Qed.
 Lemma planned_allowed : forall h, ops_planned h = true -> ops_allowed h = true.
 Proof. intros h H. apply planned_allowed_from; auto. Qed.
+Lemma allowed_planned_from : forall h L, allowed_from L h = true -> planned_from L h = true.
+Proof.
+  induction h as [| o h IH]; intros L H; auto. cbn [planned_from allowed_from] in *.
+  apply andb_true_iff in H. destruct H as [H H4]. apply andb_true_iff in H. destruct H as [H H3].
+  rewrite H. cbn [andb]. apply IH; auto.
+Qed.
 
 Lemma read_is_lww_planned : forall h, ops_planned h = true -> forall s tmin tmax fs asc,
   read_layout (run false h) s tmin tmax fs asc = shape tmin tmax fs asc (sel s (lww_table (writes_of h))).
